@@ -527,6 +527,16 @@ func c13Engine() *Engine {
 				if len(proj) == 0 {
 					proj = []string{shared[r.Intn(len(shared))].Name}
 				}
+				// the property quantifies over all column lists: unknown names and
+				// duplicates, at any position (first, middle, last)
+				if r.Pct(35) {
+					at := r.Intn(len(proj) + 1)
+					proj = append(proj[:at:at], append([]string{"NoSuchColumn"}, proj[at:]...)...)
+				}
+				if r.Pct(20) {
+					at := r.Intn(len(proj) + 1)
+					proj = append(proj[:at:at], append([]string{proj[r.Intn(len(proj))]}, proj[at:]...)...)
+				}
 				var times []int64
 				for _, k := range qh.keys {
 					if len(qh.all[k]) > 0 {
